@@ -12,13 +12,14 @@ let pev_sx x = match Sx.list x with
   | [Sx.A "timera"; k] -> PTimerA (match int_sx k with 0 -> NeedHeartbeat | 1 -> PeerTimeout | 2 -> LogonTimeout | _ -> LogoutTimeout)
   | [Sx.A "timerb"; k] -> PTimerB (match int_sx k with 0 -> NeedHeartbeat | 1 -> PeerTimeout | 2 -> LogonTimeout | _ -> LogoutTimeout)
   | [Sx.A "cut"] -> PCut | [Sx.A "restarta"] -> PRestartA | [Sx.A "restartb"] -> PRestartB
+  | [Sx.A "stopa"] -> PStopA | [Sx.A "stopb"] -> PStopB
   | _ -> failwith ("pev: " ^ Sx.to_string x)
 
 (* which side an event steps (the other side's logs are stale: render it as idle) *)
 let touched = function
   | PConnect | PCut -> (true, true)
-  | PSendA _ | PDeliverBA | PTimerA _ -> (true, false)
-  | PSendB _ | PDeliverAB | PTimerB _ -> (false, true)
+  | PSendA _ | PDeliverBA | PTimerA _ | PStopA -> (true, false)
+  | PSendB _ | PDeliverAB | PTimerB _ | PStopB -> (false, true)
   | PRestartA -> (false, true) | PRestartB -> (true, false)
 
 let sx_idle (s : sess) =
